@@ -307,14 +307,15 @@ def tls_two_hop(v, wd, origin, ltls, ctls, ctl, refused):
             ports2[(kind, cert)] = port
             l2.append({"name": "u_%s_%s" % (kind, cert), "type": kind, "bind": "127.0.0.1:%d" % port, "tls": {"cert": FX + "/" + crt, "key": FX + "/" + key}})
             for setting in ("verify_ca", "insecure", "default_roots"):
-                name = "cc_%s_%s_%s" % (kind, setting, cert)
-                tlsc = {"insecure": setting == "insecure"}
-                if setting != "default_roots":
-                    tlsc["ca"] = FX + "/ca.crt"
-                d = {"name": name, "type": kind, "server": "localhost", "port": port, "tls": tlsc}
-                if kind == "quic":
-                    d["bind"] = "127.0.0.1:0"
-                c1.append(d)
+                for nf, server in (("dns", "localhost"), ("ip", "127.0.0.1")):
+                    name = "cc_%s_%s_%s_%s" % (kind, setting, cert, nf)
+                    tlsc = {"insecure": setting == "insecure"}
+                    if setting != "default_roots":
+                        tlsc["ca"] = FX + "/ca.crt"
+                    d = {"name": name, "type": kind, "server": server, "port": port, "tls": tlsc}
+                    if kind == "quic":
+                        d["bind"] = "127.0.0.1:0"
+                    c1.append(d)
     lports = {}
     for c in c1:
         p = bb.free_port()
@@ -348,13 +349,13 @@ def tls_two_hop(v, wd, origin, ltls, ctls, ctl, refused):
                 v.report("auth/tls-listener/quic/%s/%s/routed-unauthenticated" % (c["policy"], c["cert"]),
                          {"expected_accept": c["accept"], "origin_contacted": contacted, "client_told_established": est}, {"row": c})
         for c in ctls:
-            est, contacted = attempt("cc_%s_%s_%s" % (c["connector"], c["setting"], c["cert"]), c["establish"])
+            est, contacted = attempt("cc_%s_%s_%s_%s" % (c["connector"], c["setting"], c["cert"], c["name"]), c["establish"])
             nc += 1
             ctl["ctls_" + c["connector"]] += int(c["establish"] and contacted)
             if c["establish"] and not contacted:
                 refused.append(("ctls", c["connector"], c["setting"], c["cert"]))
             if (est or contacted) and not c["establish"]:
-                v.report("auth/tls-connector/%s/%s/%s/tunnel-through-unverified-upstream" % (c["connector"], c["setting"], c["cert"]),
+                v.report("auth/tls-connector/%s/%s/%s/%s/tunnel-through-unverified-upstream" % (c["connector"], c["setting"], c["cert"], c["name"]),
                          {"expected_establish": c["establish"], "origin_contacted": contacted, "client_told_established": est}, {"row": c})
     finally:
         ok = p1.alive() and p2.alive()
